@@ -4,6 +4,7 @@
 CONSTANTS
   N = 2
   NI = 1
+  NK = 1
   MaxClock = 1
   Retention = 0
   T = 1
@@ -19,6 +20,7 @@ CONSTANTS
   GateNodes = {}
   InboxCap = 1
   VersionTest = TRUE
+  KeyTest = TRUE
   MaxDel = 0
   ObsoleteTimeout = 1
   ConsumeNet = TRUE
